@@ -538,6 +538,18 @@ func (c *Ctx) checkMutator(sm *storeModel, fn *ssa.Function, id ssa.Value, res *
 			res.hasNotExit = true
 			return
 		}
+		// the result of a runner (mb.update(func() error {…})): what the closure returns; its
+		// returns are judged where they stand
+		if call, ok := e.(*ssa.Call); ok {
+			if g := eng.StaticCallee(call.Common()); g != nil {
+				if pi := eng.RunnerParam(g); pi >= 0 && pi < len(call.Call.Args) {
+					if h, _, ok := eng.FuncValueOf(call.Call.Args[pi]); ok && h != nil && eng.Outer(h) == eng.Outer(fn) {
+						c.checkMutator(sm, h, id, res, seen)
+						return
+					}
+				}
+			}
+		}
 		// pass-through of a module callee that receives the id
 		if call, ok := e.(*ssa.Call); ok {
 			if g := eng.StaticCallee(call.Common()); g != nil && eng.InModule(g) && g.Blocks != nil {
